@@ -20,13 +20,14 @@ import (
 // budget per handler, wedge, at most one reply per datagram, and bounded liveness afterwards.
 type hostile struct {
 	baseScenario
-	c4     []*Client4
-	c6     []*Client6
-	sid6   dhcpv6.DUID
-	hasSID bool
-	sent   [][]byte
-	sentV6 []bool
-	final  []*DG
+	c4      []*Client4
+	c6      []*Client6
+	sid6    dhcpv6.DUID
+	hasSID  bool
+	sent    [][]byte
+	sentV6  []bool
+	final   []*DG
+	closeAt int64
 }
 
 func init() { registerScenario("hostile", func() scenario { return &hostile{} }) }
@@ -74,6 +75,14 @@ func (s *hostile) Plan(w *World) {
 	default:
 		w.LSpecs = []ListenerSpec{{V6: false, IfIndex: 3}, {V6: false, IfIndex: 0}, {V6: true, IfIndex: 0}}
 	}
+	switch t.Draw(16) {
+	case 0:
+		// a socket cannot be opened (EMFILE): Start has to fail and clean up, not crash
+		w.Sim.SocketFault(1 + t.Pick(len(w.LSpecs)))
+	case 1, 2:
+		// a socket is closed under the server some time into the run: its receive loop ends, Wait closes the others
+		s.closeAt = 1 + int64(t.Draw(3000))*1e6
+	}
 	for i := 0; i < 4; i++ {
 		hw := drawMAC(t, 6, i+1)
 		if i == 0 {
@@ -94,6 +103,22 @@ func (s *hostile) Plan(w *World) {
 	n := t.Range(20, 300)
 	if t.Draw(3) == 0 {
 		n = t.Range(5, 40)
+	}
+	if s.closeAt > 0 {
+		w.Sim.After(s.closeAt, func() {
+			var open []int
+			for _, p := range w.Sim.Ports() {
+				if p.Inc == w.Inc && !p.Closed {
+					open = append(open, p.ID)
+				}
+			}
+			if len(open) > 0 {
+				id := open[w.T.Pick(len(open))]
+				w.hist("FAULT: socket %d is closed under the server", id)
+				w.Sim.FaultsFired[simrt.FSockClose]++
+				w.Sim.ClosePort(id)
+			}
+		})
 	}
 	var at int64
 	for i := 0; i < n; i++ {
@@ -385,7 +410,7 @@ func (s *hostile) Finish(w *World) {
 		return
 	}
 	for _, dg := range w.DGs {
-		if dg.Delivered && !dg.Handled && !dg.Killed {
+		if dg.Delivered && !dg.Handled && !dg.Killed && !(w.Sim.PortQueued(dg.Port, dg.ID) && !w.Sim.PortOpen(dg.Port)) {
 			w.Violate("C01", "handler-never-finished", "dg%d (%s) was delivered but its handler never finished although the server is idle", dg.ID, dg.Kind)
 			return
 		}
